@@ -6,6 +6,24 @@ VERIF = os.path.dirname(os.path.dirname(os.path.abspath(__file__)))
 ALL = [f"C{i:02d}" for i in range(1, 21)]
 
 CLAIMED = {
+    "C01": dict(
+        technique="Coq proofs: regenerated prefix transducer (each string/prefix pair exactly once), Boolean prefix weight <-> existence of a derivation tree whose yield begins with the context, EOS wrapping; vm_compute correspondence of the mask for both back-ends",
+        text="The mask bit computed by the Coq prefix tabulation over the Boolean semiring is proved to hold exactly when some derivation tree has a yield beginning with the context (for every grammar: empty rules, unary cycles, recursion, useless symbols), the tabulation is proved to compute that reference, the regenerated prefix transducer is proved to relate every string to each of its prefixes with exactly one path, and EOS wrapping is proved to add exactly one trailing eos. BoolCFGLM(alg=earley|cky).p_next(ctx).keys() is compared with that mask on generated grammars and contexts (viable or not) under permutation/renaming and hash seeds.",
+        note="Partial: the implementation's route (prefix grammar by composition + Earley/CKY back-ends) is tied to the reference mask by correspondence, not by a refinement proof.",
+        design="§4 C01",
+    ),
+    "C03": dict(
+        technique="Coq proofs: regenerated prefix transducer theorem; prefix-weight reference = sum over all derivation trees whose yield begins with p; tabulation = reference; vm_compute correspondence of prefix_weight / derivatives / derivative",
+        text="Wpre (prefix weight at bounded height) is proved equal to the sum of the weights of the derivation trees whose yield begins with p, each once, for every grammar over every commutative semiring, with the empty prefix giving the total weight; the executable tabulation is proved to compute it; the prefix transducer regenerated from source is proved to accept each (string, prefix) pair with exactly one path of weight one. prefix_weight, prefix_grammar, derivatives(p)[-1].treesum() and derivative(a)(y) are compared with these references (exact rationals on finite languages, Booleans on all grammars, floats against the iteration limit on recursive grammars).",
+        note="Partial: infinitely many completions are a limit (compared numerically); the derivative construction and the composition that builds the prefix grammar are decided by correspondence only.",
+        design="§4 C03",
+    ),
+    "C04": dict(
+        technique="Coq proofs over an abstract field: next-token distribution sums to one, chain rule by telescoping from the prefix-sum identity; prefix-weight semantics; regenerated rescaled priority; vm_compute correspondence of p_next / unnormalised weights / chain rule for the three LMs",
+        text="Over any field the chain rule prod p_next = weight/total is proved from the prefix-sum identity and the identification of next-token weights with prefix weights, and normalised distributions are proved to sum to one; prefix weights are proved to be sums over derivation trees. EarleyLM, CKYLM and the rescaled EarleyLM are compared with normalised Coq prefix weights (exact rationals), unnormalised weights with prefix weights, lm(xs+eos) with weight/total, recursive grammars on floats with the iteration limit, and the rescaled variant on contexts of up to hundreds of tokens with the exact-rational Earley LM.",
+        note="Partial: the hypotheses of the chain-rule theorem (next-token weight = prefix weight of context+token) are established for the implementation by correspondence only; rescaling factors are not modelled (their cancellation is observed on long contexts).",
+        design="§4 C04",
+    ),
     "C06": dict(
         technique="Coq proofs of weight preservation for bottom-up trimming, injective renaming and start separation (any commutative semiring); every transformation's output is read back and evaluated by the proved reference semantics under vm_compute and compared with the input's",
         text="cotrim, rename and separate_start are proved to preserve the derivation sum of every string at every height for every grammar over every commutative semiring (non-generating symbols are proved to have weight zero; the generating set is proved to be exactly the productive symbols). For all transformations and options the implementation's output grammar is read back, evaluated in Coq by the reference semantics (proved to be the sum over all derivation trees) and compared with the input grammar's values: exact rationals on finitely ambiguous grammars, Booleans on all grammars (nullable and unary cycles included), floats against the Kleene limit on convergent cyclic grammars.",
